@@ -83,13 +83,23 @@ class PlainColumnProjection(Spec):
         return NotImplemented
 
     def filter_comp(self, ex, fr, e, g, it, elt_eval):
-        # [col for col in X if col in Y]: exactly the elements of X that are in Y, in X's order
-        if not (isinstance(e.elt, ast.Name) and isinstance(g.target, ast.Name) and e.elt.id == g.target.id and len(g.ifs) == 1
-                and isinstance(g.ifs[0], ast.Compare) and isinstance(g.ifs[0].ops[0], ast.In) and isinstance(g.ifs[0].left, ast.Name) and g.ifs[0].left.id == g.target.id):
+        # [col for col in X if <condition on col>]: exactly the elements of X that satisfy the condition, in X's order
+        if not (isinstance(e.elt, ast.Name) and isinstance(g.target, ast.Name) and e.elt.id == g.target.id and g.ifs):
             from vf.pyvc.exec import Unsupported
 
             raise Unsupported("filter comprehension of another shape: " + ast.unparse(e)[:80])
-        other = ex.eval(g.ifs[0].comparators[0], fr)
+        from vf.pyvc.exec import _and
+        from vf.pyvc.values import zbool
+
+        def cond(v):
+            f2 = fr.clone()
+            f2.env[g.target.id] = v
+            ex.quiet += 1
+            try:
+                return zbool(_and([ex.truth(ex.eval(t, f2), f2) for t in g.ifs]))
+            finally:
+                ex.quiet -= 1
+
         f = fresh_fun("kept", z3.IntSort(), Lab)
         pos = fresh_fun("kept_pos", z3.IntSort(), z3.IntSort())
         n = fresh_int("kept_len")
@@ -98,10 +108,10 @@ class PlainColumnProjection(Spec):
         k2 = fresh_int("k2")
         ex.assume(fr, z3.And(
             n >= 0, n <= zint(it.length),
-            z3.ForAll([k], z3.Implies(z3.And(k >= 0, k < n), z3.And(pos(k) >= 0, pos(k) < zint(it.length), it.get(pos(k)) == f(k), ex.contains(other, f(k), fr)))),
+            z3.ForAll([k], z3.Implies(z3.And(k >= 0, k < n), z3.And(pos(k) >= 0, pos(k) < zint(it.length), it.get(pos(k)) == f(k), cond(f(k))))),
             z3.ForAll([k, k2], z3.Implies(z3.And(0 <= k, k < k2, k2 < n), pos(k) < pos(k2))),
-            z3.ForAll([c], z3.Implies(z3.And(_in(it, c), ex.contains(other, c, fr)), _in(K, c))),
-            z3.Implies(z3.ForAll([k], z3.Implies(z3.And(k >= 0, k < zint(it.length)), ex.contains(other, it.get(k), fr))), z3.And(n == zint(it.length), z3.ForAll([k], z3.Implies(z3.And(k >= 0, k < n), pos(k) == k)))),
+            z3.ForAll([c], z3.Implies(z3.And(_in(it, c), cond(c)), _in(K, c))),
+            z3.Implies(z3.ForAll([k], z3.Implies(z3.And(k >= 0, k < zint(it.length)), cond(it.get(k)))), z3.And(n == zint(it.length), z3.ForAll([k], z3.Implies(z3.And(k >= 0, k < n), pos(k) == k)))),
         ))
         return K
 
